@@ -1,6 +1,7 @@
 """Shared pipeline of the connection-level properties (C02, C03, C04, C17): TLC-generated plans
 (Gen_Rdp), the connect driver over real TLS, pass A, Trace_Rdp."""
 import json
+import re
 import os
 from . import core
 
@@ -36,7 +37,10 @@ def gen_plans(wd, nconn, flagset, seed):
     return load(nego, "n"), load(conn, "c")
 
 
-def run_plans(wd, plans, tag):
+def run_plans(wd, plans, tag, v=None, key="conn:abort"):
+    """run the connect driver.  If the driver PROCESS dies (abort: refused allocation, stack overflow, a signal) while the
+    code under test runs, that is an observation about the code, not a tool error: with a Verdict `v` given it is
+    reported as a violation naming the plan in flight, and the runs recorded so far are analysed as usual."""
     vh = core.build_harness()
     pp = os.path.join(wd, tag + ".plans.ndjson")
     with open(pp, "w") as f:
@@ -44,7 +48,16 @@ def run_plans(wd, plans, tag):
             f.write(json.dumps(p, separators=(",", ":")) + "\n")
     trace, blobs, decoded = [os.path.join(wd, tag + x) for x in (".trace.ndjson", ".blobs.ndjson", ".decoded.ndjson")]
     rc, err = core.run_harness(vh, "connect", ["--plans", pp, "--trace", trace, "--blobs", blobs], timeout=3000)
-    if rc != 0:
+    if rc is not None and rc < 0 and v is not None and os.path.exists(trace):
+        lines = [l for l in open(trace).read().split("\n") if l.strip()]
+        last = next((json.loads(l) for l in reversed(lines) if '"ev":"reset"' in l.replace('": "', '":"')), {})
+        where = re.sub(r"\s+", " ", " ".join(x.strip() for x in err.split("\n") if "rdp::" in x)[:300])
+        v.violation(key, "the driver process died (rc %s: abort / refused allocation / stack overflow) inside the library while running plan %s: %s" % (rc, last.get("run"), where),
+                    {"plan": [p for p in plans if p.get("id") == last.get("run")][:1], "stderr": err[-3000:]})
+        # keep what was recorded before the plan in flight
+        starts = [i for i, l in enumerate(lines) if '"ev":"reset"' in l.replace('": "', '":"')]
+        open(trace, "w").write("\n".join(lines[:starts[-1]] if starts else []) + "\n")
+    elif rc != 0:
         raise core.ToolError("connect driver failed rc=%s: %s" % (rc, err[-2000:]))
     txt = open(trace).read()
     if '"ev":"harness_error"' in txt:
